@@ -1,10 +1,11 @@
 /-
 Property C07 — resolve is deterministic: same answers in, same result and call trace out.
 
-What a theorem can say: the model of `resolve` is a function of (root, version, answers) — true of
-any Lean function, stated as `C07_function` — and it is *causal*: the first k+1 requests depend only
-on the first k answers (`C07_causal`), so a provider that answers identically sees the identical
-call sequence.  That the REAL `resolve` is this function is exactly the exact-mirror correspondence:
+What a theorem can say: the model of `resolve` is a function of (root, version, answers), and it is
+*causal*: the first k+1 requests depend only on the first k answers (`C07_causal`); hence two providers
+— arbitrary functions of the history of requests they have seen — that answer alike on the histories
+that actually occur see the identical call sequence and get the identical result
+(`C07_same_answers_same_run`).  That the REAL `resolve` is this function is exactly the exact-mirror correspondence:
 on every recorded run the model, given only the provider's answers (and which maximal package the
 queue popped), predicts every request, every snapshot and the result.
 
@@ -23,12 +24,40 @@ open Pubgrub Pubgrub.Solver
 variable {P S V M Pr E : Type} [DecidableEq P] [VersionSet S V] [DecidableEq S] [DecidableEq V]
   [LE Pr] [DecidableLE Pr]
 
-/-- the trace and the final state are functions of the inputs -/
-theorem C07_function (debug : Bool) (fuel : Nat) (root : P) (rv : V)
-    (as bs : List (Answer P S V M Pr E)) (h : as = bs) :
-    trace debug fuel root rv as = trace debug fuel root rv bs ∧
-    (after (start debug fuel root rv) as).2 = (after (start debug fuel root rv) bs).2 := by
-  subst h; exact ⟨rfl, rfl⟩
+/-- the answers a provider gives in the first `n` rounds: the provider may depend on the whole history
+of requests it has seen (stateful, random with a seed, …) -/
+def answersOf (prov : List (Request P S V M Pr E) → Answer P S V M Pr E)
+    (debug : Bool) (fuel : Nat) (root : P) (rv : V) : Nat → List (Answer P S V M Pr E)
+  | 0 => []
+  | n + 1 =>
+    answersOf prov debug fuel root rv n ++
+      [prov (trace debug fuel root rv (answersOf prov debug fuel root rv n))]
+
+/-- determinism: two providers that answer alike on the request histories that actually occur see the
+same calls and get the same result — the run is a function of the provider's answers to the requests it
+is sent, nothing else (no clock, no address, no global state) -/
+theorem C07_same_answers_same_run (prov1 prov2 : List (Request P S V M Pr E) → Answer P S V M Pr E)
+    (debug : Bool) (fuel : Nat) (root : P) (rv : V) (n : Nat)
+    (h : ∀ k, k < n →
+      prov1 (trace debug fuel root rv (answersOf prov1 debug fuel root rv k)) =
+      prov2 (trace debug fuel root rv (answersOf prov1 debug fuel root rv k))) :
+    answersOf prov1 debug fuel root rv n = answersOf prov2 debug fuel root rv n ∧
+    trace debug fuel root rv (answersOf prov1 debug fuel root rv n) =
+      trace debug fuel root rv (answersOf prov2 debug fuel root rv n) ∧
+    (after (start debug fuel root rv) (answersOf prov1 debug fuel root rv n)).2 =
+      (after (start debug fuel root rv) (answersOf prov2 debug fuel root rv n)).2 := by
+  have key : ∀ m, m ≤ n → answersOf prov1 debug fuel root rv m = answersOf prov2 debug fuel root rv m := by
+    intro m
+    induction m with
+    | zero => intro _; rfl
+    | succ m ih =>
+      intro hm
+      have ihm := ih (Nat.le_of_succ_le hm)
+      simp only [answersOf]
+      rw [← ihm, h m hm]
+  have e := key n (Nat.le_refl n)
+  rw [e]
+  exact ⟨rfl, rfl, rfl⟩
 
 /-- causality: two answer sequences that agree on their first k answers produce the same first k+1
 requests -/
